@@ -424,6 +424,16 @@ def run(ctx):
             thread_workload(ctx)
         reuse_workload(ctx)
         purity_workload(ctx, tmp)
+        if not ctx.quick and ctx.shard == 0:
+            from .. import suite
+            data, tail = suite.run_suite()
+            if data is None:
+                ctx.res.inconclusive_because("repository test-suite under contracts did not finish: " + str(tail)[-200:])
+            else:
+                ctx.res.count("suite_tests", data["tests"])
+                ctx.res.count("suite_purity_evals", data["purity_evals"])
+                for x in data["purity"]:
+                    ctx.res.violation("under-repo-tests:" + x["kind"], {"part": "repo-suite", "test": x["test"], "case": x["case"]}, None, None)
         ctx.res.count("evaluations", ctx.res.counters["purity_evals"] + ctx.res.counters["reuse_comparisons"] + ctx.res.counters["thread_results_compared"])
     finally:
         import shutil
